@@ -15,7 +15,7 @@ from units_common import e_str
 
 TRUSTED_BASE = [
     'Coq 8.16.1 kernel + vm_compute (finite obligations over the regenerated table; the exhaustive sweeps are complete over that table)',
-    'tools/gen_tables.py (translator) and /repo/core/src/verif_hooks/units.rs: the table module compiled a second time from the same source file (#[path]) for ALL_UNIT_DEFS, include_str! of the same file for the string literals; short prefixes and currency identifiers are found by probing the lookup function with every literal',
+    'tools/gen_tables.py (translator) and ' + vlib.REPO + '/core/src/verif_hooks/units.rs: the table module compiled a second time from the same source file (#[path]) for ALL_UNIT_DEFS, include_str! of the same file for the string literals; short prefixes and currency identifiers are found by probing the lookup function with every literal',
     'hook resolve/eval_expr: units::query_unit / eval::evaluate_to_value on a fresh Context, decoded from Value::serialize and reduced by the tree\'s own create_unit_value_from_value',
     'evaluator is an oracle: the model takes the value of each definition BODY from the tree\'s evaluator (gen_bodies); lookup, prefix rules, alias handling, unit construction and prefix composition are computed by the model',
     'extraction ExtrOcamlBasic -> OCaml, modelrun/driver.ml; cross-checked against vm_compute on a sample; the same model is also run in the kernel on all names (C11_model_matches_implementation)',
@@ -66,6 +66,7 @@ def frac_lit(q):
 def check(c):
     try:
         _check(c)
+        U.regression_witnesses(c)
     finally:
         c.repr_drift += U.DRIFT['pi_approximation_flagged_exact']
         if U.DRIFT['pi_approximation_flagged_exact']:
